@@ -91,7 +91,21 @@ func (g *pathGen) spellRune(r rune, inString bool) string {
 	return forms[g.r.Intn(len(forms))]
 }
 
+// lookalikes are texts that spell an escape sequence of some language without being one: the
+// backslash is a character of the text.
+var lookalikes = []string{
+	`\U0001f600`, `\U000e0001`, `\U0001F600`, `\U00ff`, `\u00e9`, `\u{1f600}`, `\x41`, `\a`, `\n`, `\e`, `\E`, `\Q`, `\Qa\Eb`, `a\Eb`, `\\`, `\\U0001f600`,
+	`C:\Users`, `\"`, `\u`, `\u{`, `\ud83d\ude00`, `%q`, `\141`, `\0`, `\z`, `\p{L}`, `[\d]`,
+}
+
 func (g *pathGen) stringContent() []rune {
+	if g.chance(0.06) {
+		out := []rune(lookalikes[g.r.Intn(len(lookalikes))])
+		if g.chance(0.3) {
+			out = append([]rune{contentRunes[g.r.Intn(len(contentRunes))]}, out...)
+		}
+		return out
+	}
 	n := g.r.Intn(5)
 	if g.chance(0.1) {
 		n += g.r.Intn(8)
@@ -1050,5 +1064,30 @@ func genExhaustive(cw *caseWriter) {
 	enumerate(alphabetCore, 4, func(seq []string) { emit("exh-core-4", "", seq) })
 	for _, p := range prefixes[1:] {
 		enumerate(alphabetCore, 3, func(seq []string) { emit("exh-prefix-core-3", p, seq) })
+	}
+}
+
+// emitFixed writes the cases every run starts with, whatever the seed: tokens long enough to push an
+// error message past 4 KiB, and look-alike escape texts in every position that holds a string.
+func (g *pathGen) emitFixed(cw *caseWriter) {
+	for _, n := range []int{5000} {
+		for _, t := range []string{
+			"$.a == " + strings.Repeat("9", n), "$.a == 1." + strings.Repeat("1", n), "$.a == 1e" + strings.Repeat("9", n),
+			"$ ? (@ like_regex \"" + strings.Repeat("(", n) + "\")", "$.\"" + strings.Repeat("k", n) + "\"", "$.a == 0x" + strings.Repeat("f", n),
+			"$." + strings.Repeat("k", n) + " == \"" + strings.Repeat("é", n) + "\"", "$[" + strings.Repeat("9", n) + "]", "$.**{" + strings.Repeat("9", n) + "}",
+			"$ ? (@ == \"" + strings.Repeat("a", n), "$.a.decimal(" + strings.Repeat("9", n) + ")", "$ ? (@ like_regex \"a\" flag \"" + strings.Repeat("x", n) + "\")",
+		} {
+			cw.parseCase("long", []byte(t))
+		}
+	}
+	for _, l := range lookalikes {
+		q := g.quoted([]rune(l))
+		for _, t := range []string{"$.%s", "$ ? (@ == %s)", "$%s", "$ ? (@ like_regex %s flag \"q\")", "$.datetime(%s)", "$ ? (@ starts with %s)", "$.a.%s[0].%s"} {
+			src := []byte(strings.ReplaceAll(t, "%s", q))
+			cw.parseCase("lookalike", src)
+			if _, p := goParse(string(src)); p != nil {
+				cw.parseCase("reparse", []byte(p.String()))
+			}
+		}
 	}
 }
